@@ -56,9 +56,10 @@ structure Env where
   back : Nat → Nat
   /-- the kind of a term -/
   kind : Nat → Kind
-  /-- `false`: `ValueVector` as it is (the validity bitmap is created at the first null and
-      never grows); `true`: a vector that records every null -/
-  vfix : Bool := false
+  /-- `true`: `ValueVector` as it is since /repo commit ea119b4 (every null is recorded); `false`:
+      the vector before that commit (the validity bitmap was created at the first null and never
+      grew, so every later null of a column read back as the default value `""`) -/
+  vfix : Bool := true
 
 /-! ## surface syntax -/
 
@@ -219,18 +220,33 @@ def optJoinStd (acc a : Pat) : Pat :=
 
 def assembleStd (p : SParts) : Pat := withFilter p.filters p.pat
 
+/-- a basic graph pattern as `Join(… Join(Z, tp₁) …, tpₙ)` -/
+def bgpStd (tps : List TP) : Pat := tps.foldl (fun acc tp => .join acc (.scan tp)) .unit
+
+/-- the group is translated first and simplified (`Join(Z, A) = A`) afterwards, as the standard
+says: `OPTIONAL { { P FILTER(F) } }` therefore keeps `F` inside the inner group (`simpUnit` is
+the simplification; it does not change what `eval` returns) -/
 def stdParts (acc : SParts) : Grp → SParts
   | .nil => acc
-  | .triples tps rest => stdParts { acc with pat := joinP acc.pat (bgp tps) } rest
+  | .triples tps rest => stdParts { acc with pat := .join acc.pat (bgpStd tps) } rest
   | .optional g rest =>
     stdParts { acc with pat := optJoinStd acc.pat (assembleStd (stdParts ⟨.unit, []⟩ g)) } rest
   | .union a b rest =>
     let u := Pat.union (assembleStd (stdParts ⟨.unit, []⟩ a)) (assembleStd (stdParts ⟨.unit, []⟩ b))
-    stdParts { acc with pat := joinP acc.pat u } rest
-  | .group g rest => stdParts { acc with pat := joinP acc.pat (assembleStd (stdParts ⟨.unit, []⟩ g)) } rest
+    stdParts { acc with pat := .join acc.pat u } rest
+  | .group g rest => stdParts { acc with pat := .join acc.pat (assembleStd (stdParts ⟨.unit, []⟩ g)) } rest
   | .filter e rest => stdParts { acc with filters := acc.filters ++ [e] } rest
 
 def transStd (g : Grp) : Pat := assembleStd (stdParts ⟨.unit, []⟩ g)
+
+/-- the simplification step of §18.2.2.8 -/
+def simpUnit : Pat → Pat
+  | .unit => .unit
+  | .scan tp => .scan tp
+  | .join a b => joinP (simpUnit a) (simpUnit b)
+  | .leftJoin a b c => .leftJoin (simpUnit a) (simpUnit b) c
+  | .union a b => .union (simpUnit a) (simpUnit b)
+  | .filter e a => .filter e (simpUnit a)
 
 /-! ## specification: the algebra over a set of triples
 
@@ -381,8 +397,8 @@ def strOfCell (env : Env) : Cell → Cell
   | .int _ => .str env.emptyLex
   | c => c
 
-/-- `push_value(Null)`: the first null of a vector creates the validity bitmap; a later one finds
-its index beyond the bitmap's length and stays the default value `""` -/
+/-- `push_value(Null)` before /repo commit ea119b4: the first null of a vector creates the validity
+bitmap; a later one finds its index beyond the bitmap's length and stays the default value `""` -/
 def degradeCell (env : Env) (seen : Bool) (c : Cell) : Bool × Cell :=
   match c with
   | .null => if seen then (true, .str env.emptyLex) else (true, .null)
@@ -922,5 +938,96 @@ def specUpdate (env : Env) (n : Nat) (G : List Triple) : Update → Option (List
     let sols := eval env n G (transStd w)
     let G1 := (del.flatMap fun tp => sols.filterMap fun μ => specInst env μ tp).foldl specRemove G
     some ((ins.flatMap fun tp => sols.filterMap fun μ => specInst env μ tp).foldl specInsert G1)
+
+/-! ## syntactic conditions (hypotheses of the theorems in `Props/C13Sparql.lean`, signatures in
+the driver) -/
+
+/-- the column names the planner computes (`plan_join`: all left, then the right ones that are new;
+`plan_union`: those of the first input) -/
+def patCols : Pat → List Nat
+  | .unit => []
+  | .scan tp => tpCols tp
+  | .join a b => patCols a ++ (patCols b).filter fun v => !(patCols a).contains v
+  | .leftJoin a b _ => patCols a ++ (patCols b).filter fun v => !(patCols a).contains v
+  | .union a _ => patCols a
+  | .filter _ a => patCols a
+
+/-- variables bound in every solution -/
+def certain : Pat → List Nat
+  | .unit => []
+  | .scan tp => tpCols tp
+  | .join a b => certain a ++ certain b
+  | .leftJoin a _ _ => certain a
+  | .union a b => (certain a).filter fun v => (certain b).contains v
+  | .filter _ a => certain a
+
+def linearTP (tp : TP) : Bool := decide (tpCols tp).Nodup
+
+def patLinear : Pat → Bool
+  | .unit => true
+  | .scan tp => linearTP tp
+  | .join a b => patLinear a && patLinear b
+  | .leftJoin a b _ => patLinear a && patLinear b
+  | .union a b => patLinear a && patLinear b
+  | .filter _ a => patLinear a
+
+def patHasOptional : Pat → Bool
+  | .unit => false
+  | .scan _ => false
+  | .leftJoin _ _ _ => true
+  | .join a b => patHasOptional a || patHasOptional b
+  | .union a b => patHasOptional a || patHasOptional b
+  | .filter _ a => patHasOptional a
+
+/-- `leftJoin a b (some e)` written the way the translator writes it -/
+def normOpt : Pat → Pat
+  | .unit => .unit
+  | .scan tp => .scan tp
+  | .join a b => .join (normOpt a) (normOpt b)
+  | .union a b => .union (normOpt a) (normOpt b)
+  | .filter e a => .filter e (normOpt a)
+  | .leftJoin a b none => .leftJoin (normOpt a) (normOpt b) none
+  | .leftJoin a b (some e) => .leftJoin (normOpt a) (.filter e (normOpt b)) none
+
+def unionAligned : Pat → Bool
+  | .unit => true
+  | .scan _ => true
+  | .join a b => unionAligned a && unionAligned b
+  | .leftJoin a b _ => unionAligned a && unionAligned b
+  | .union a b => patCols a == patCols b && unionAligned a && unionAligned b
+  | .filter _ a => unionAligned a
+
+def ptConsts : PT → List Nat
+  | .var _ => []
+  | .const c => [c]
+
+def tpConsts (tp : TP) : List Nat := ptConsts tp.s ++ ptConsts tp.p ++ ptConsts tp.o
+
+def exprConsts : Expr → List Nat
+  | .eq a b => ptConsts a ++ ptConsts b
+  | .ne a b => ptConsts a ++ ptConsts b
+  | .lt a b => ptConsts a ++ ptConsts b
+  | .bound _ => []
+  | .not e => exprConsts e
+  | .and a b => exprConsts a ++ exprConsts b
+  | .or a b => exprConsts a ++ exprConsts b
+
+def condConsts : Option Expr → List Nat
+  | none => []
+  | some e => exprConsts e
+
+def patConsts : Pat → List Nat
+  | .unit => []
+  | .scan tp => tpConsts tp
+  | .join a b => patConsts a ++ patConsts b
+  | .union a b => patConsts a ++ patConsts b
+  | .leftJoin a b c => patConsts a ++ patConsts b ++ condConsts c
+  | .filter e a => exprConsts e ++ patConsts a
+
+def triplesTerms (G : List Triple) : List Nat := G.flatMap fun t => [t.s, t.p, t.o]
+
+/-- two different terms of the list are written the same way -/
+def lexClash (env : Env) (terms : List Nat) : Bool :=
+  terms.any fun a => terms.any fun b => a != b && env.lex a == env.lex b
 
 end Grafeo.Sparql
